@@ -437,8 +437,85 @@ func textOf(e jentry, orig string, quoted bool) (string, bool) {
 // heavy entries are costly (megabyte inputs): they are applied to few nodes.
 func (e jentry) heavy() bool { return e.N >= 100000 }
 
+// typeAtPath follows a node path through the Go type the document is unmarshalled into and names the type that
+// receives the node: the innermost named type of core (a type with its own UnmarshalJSON / UnmarshalText swallows
+// everything below it). "" when the path cannot be followed.
+func typeAtPath(t reflect.Type, path []any) string {
+	name := ""
+	note := func(t reflect.Type) bool { // returns true when the type takes over the rest of the document
+		if t.Name() != "" && strings.HasPrefix(t.PkgPath(), "go.sia.tech/core") {
+			name = typeName(t)
+		}
+		pt := reflect.PointerTo(t)
+		return pt.Implements(jsonUnmarshalerT) || pt.Implements(textUnmarshalerT)
+	}
+	for t.Kind() == reflect.Ptr {
+		t = t.Elem()
+	}
+	if note(t) {
+		return name
+	}
+	for _, e := range path {
+		for t.Kind() == reflect.Ptr {
+			t = t.Elem()
+		}
+		switch k := e.(type) {
+		case string:
+			if t.Kind() != reflect.Struct {
+				return name
+			}
+			found := false
+			var walk func(st reflect.Type) bool
+			walk = func(st reflect.Type) bool {
+				for i := 0; i < st.NumField(); i++ {
+					f := st.Field(i)
+					tag := strings.Split(f.Tag.Get("json"), ",")[0]
+					if tag == "-" {
+						continue
+					}
+					if f.Anonymous && tag == "" {
+						ft := f.Type
+						for ft.Kind() == reflect.Ptr {
+							ft = ft.Elem()
+						}
+						if ft.Kind() == reflect.Struct && walk(ft) {
+							return true
+						}
+						continue
+					}
+					if tag == "" {
+						tag = f.Name
+					}
+					if strings.EqualFold(tag, k) {
+						t = f.Type
+						return true
+					}
+				}
+				return false
+			}
+			found = walk(t)
+			if !found {
+				return name
+			}
+		case int:
+			if t.Kind() != reflect.Slice && t.Kind() != reflect.Array {
+				return name
+			}
+			t = t.Elem()
+		}
+		for t.Kind() == reflect.Ptr {
+			t = t.Elem()
+		}
+		if note(t) {
+			return name
+		}
+	}
+	return name
+}
+
 // A jcase is one corrupted document for one entry point.
 type jcase struct {
+	Leaf                  string // the Go type that receives the corrupted node ("" unknown)
 	Class, Variant, Where string
 	Doc                   []byte
 	Direct                bool // call T.UnmarshalJSON directly (the document need not be valid JSON)
@@ -502,6 +579,7 @@ func forEachJSONCase(rt jroot, cat *catalogue, seed int64, thorough bool, fn fun
 		for ni, k := range pick {
 			nd := nodes[k]
 			where := pathString(nd.path)
+			leaf := typeAtPath(rt.T, nd.path)
 			for _, e := range cat.JSONCat {
 				if e.heavy() && (di > 0 || ni >= heavyNodes) {
 					continue
@@ -531,7 +609,7 @@ func forEachJSONCase(rt jroot, cat *catalogue, seed int64, thorough bool, fn fun
 					}
 					render(&sb, tree, nil, nd.path, "set", repl)
 				}
-				if !emit(jcase{Class: e.Class, Variant: fmt.Sprintf("%s/%d", e.Variant, e.N), Where: where, Doc: []byte(sb.String())}) {
+				if !emit(jcase{Leaf: leaf, Class: e.Class, Variant: fmt.Sprintf("%s/%d", e.Variant, e.N), Where: where, Doc: []byte(sb.String())}) {
 					return
 				}
 			}
